@@ -66,15 +66,15 @@ CROWD = dict(CFG, nworkers=(7, 9), depth=1, stmts=(2, 5), nacts=(15, 40),
 
 
 def gen(rng, tier):
-    for _ in range(300 if tier == "quick" else 8000):
+    for _ in range(300 if tier == "quick" else 2500):
         yield gen_prio(rng)
     # crowded ready queues: removals from inner and leaf slots of the heap by positional scheduling
-    for _ in range(100 if tier == "quick" else 2000):
+    for _ in range(100 if tier == "quick" else 600):
         yield with_kinds(G.gen_case(rng, CROWD), rng)
 
 
 def gen_eq(rng, tier):
-    for i in range(200 if tier == "quick" else 4000):
+    for i in range(200 if tier == "quick" else 1200):
         yield gen_equal(rng, long=(i % 10 == 0))
 
 
